@@ -3,6 +3,7 @@ CONSTANTS
  DescPlatStrict = FALSE
  PlatLookupStrict = FALSE
  ReadFaults = FALSE
+ EqualAnnStrict = FALSE
  PutFirst = FALSE
  DedupByDigest = FALSE
  DeleteKeepsOne = FALSE
